@@ -24,6 +24,12 @@ fn alphabet() -> Vec<String> {
         a.push(format!("({} => {} * 2)(9)", n, n));
         a.push(format!("[{} = 4, 1 + \"s\"]", n));
         a.push(format!("{} = [{} = 1, {}]", n, n, n));
+        a.push(format!("do {{\n  return {} = 2\n}}", n));
+        a.push(format!("do {{\n  [{} = 3, loc = 4]\n  return 1\n}}", n));
+        a.push(format!("do {{\n  [1] via (e => {} = e)\n  return loc = 5\n}}", n));
+        a.push(format!("(() => {} = 6)()", n));
+        a.push(format!("if true then {} = 7 else 0", n));
+        a.push(format!("{{k: {} = 8}}.k", n));
         a.push(format!("output {}", n));
         a.push(format!("f_{} = () => do {{\n  {} = 11\n  return {}\n}}", n, n, n));
         a.push(format!("f_{}()", n));
@@ -80,6 +86,27 @@ fn lambda_names(v: &blots_core::values::Value, heap: &blots_core::heap::Heap, ou
     }
 }
 
+/// does evaluating `e` (when it succeeds) always execute an assignment to `ident`?  Only the
+/// unconditional positions are followed: list items, record values, operands, call arguments
+fn assigns_always(e: &blots_core::ast::SpannedExpr, ident: &str) -> bool {
+    use blots_core::ast::Expr;
+    match &e.node {
+        Expr::Assignment { ident: i, value } => i == ident || assigns_always(value, ident),
+        Expr::List(items) => items.iter().any(|it| assigns_always(&it.node, ident)),
+        Expr::Record(entries) => entries.iter().any(|en| assigns_always(&en.node.value, ident)),
+        Expr::BinaryOp { op, left, right } => {
+            use blots_core::ast::BinaryOp as B;
+            assigns_always(left, ident) || (!matches!(op, B::Via | B::Where | B::Into) && assigns_always(right, ident))
+        }
+        Expr::UnaryOp { expr, .. } | Expr::PostfixOp { expr, .. } => assigns_always(expr, ident),
+        Expr::Call { func, args } => assigns_always(func, ident) || args.iter().any(|a| assigns_always(a, ident)),
+        Expr::Access { expr, index } => assigns_always(expr, ident) || assigns_always(index, ident),
+        Expr::DotAccess { expr, .. } => assigns_always(expr, ident),
+        Expr::Conditional { condition, .. } => assigns_always(condition, ident),
+        _ => false,
+    }
+}
+
 /// run one session on the real evaluator checking the snapshot invariant after every statement
 fn check_invariants(rep: &mut Report, src: &str) {
     let stmts = match statements(src) {
@@ -113,6 +140,14 @@ fn check_invariants(rep: &mut Report, src: &str) {
         for n in now.keys() {
             if ["loc", "t", "inner_x", "inner_y", "inner_z", "q", "map", "sum", "constants", "inf", "if", "true", "null"].contains(&n.as_str()) {
                 rep.finding("oracle", "name-leaked-or-reserved-bound", src, &format!("after statement {} the root environment binds {}", k, n), "c03.leak");
+            }
+        }
+        // a binding whose own right-hand side binds the same name on every path must fail
+        if let blots_core::ast::Expr::Assignment { ident, value } = &e.node {
+            if assigns_always(value, ident) {
+                if let Ok(Ok(_)) = r {
+                    rep.finding("oracle", "rebind-accepted", src, &format!("statement {} binds {} although evaluating its right-hand side had already bound it", k, ident), "c03.rebind");
+                }
             }
         }
         // a top-level rebind of a bound name must fail
